@@ -405,7 +405,7 @@ def linB (tol : Fail → Bool) (lose : St → Call → Bool) : Nat → Nat → S
             | other => other
         | done => done) (b - 1, some false)
 
-def searchBudget : Nat := 60000
+def searchBudget : Nat := 200000
 
 inductive ConcVerdict where
   | ok
@@ -421,6 +421,20 @@ inductive ConcVerdict where
   | prefixFails
 deriving Repr, DecidableEq
 
+/-- a `Values(k)` call that overlaps a write to `k` which itself races a range delete of
+    `k`: the read may have fetched the entry pointer before the delete removed the entry
+    and then sees the value the write appended to the orphan (same defect as
+    `lost-write-racing-delete`, observed by a reader) -/
+def orphanRead (all : List Call) (st : St) (c : Call) : Bool :=
+  match c.op, c.obs with
+  | .values k, .vals out =>
+    all.any fun w =>
+      racesDelete all w && decide (w.inv < c.ret) && decide (c.inv < w.ret) &&
+        (match w.op with
+         | .write [(k', vs)] => k' == k && out == canon (st.snap.get k ++ st.hot.get k ++ vs)
+         | _ => false)
+  | _, _ => false
+
 /-- a `Values(k)` call that overlaps in time a write to `k` and answered a strict prefix
     (lowest timestamps) of what is held at this point: `Cache.Values` sizes its copy
     buffer from `e.count()` and copies later; when the entry grew in between (and another
@@ -432,8 +446,10 @@ def truncatedRead (all : List Call) (st : St) (c : Call) : Bool :=
       (match d.op with
        | .write [(k', _)] => k' == k
        | _ => false) && decide (d.inv < c.ret) && decide (c.inv < d.ret)) &&
-    (let full := canon (st.snap.get k ++ st.hot.get k)
-     decide (out.length < full.length) && out == full.take out.length)
+    (let hot := canon (st.hot.get k)
+     let full := canon (st.snap.get k ++ st.hot.get k)
+     out != full &&
+       (List.range hot.length).any fun j => out == canon (st.snap.get k ++ hot.take j))
   | _, _ => false
 
 /-- the driver's decision on a concurrent block (same searches as `holdsOnConc`,
@@ -455,15 +471,15 @@ def judgeConc (pre : List (Op × Obs)) (hist : List Call) : ConcVerdict :=
         else if hasReadOverlap hist then .sizeStaleRacingRead
         else .sizeWrongConcurrent
     | some false =>
-      match (linB Fail.sizeOnly (fun _ => racesDelete calls) n searchBudget st calls).2 with
-      | some true => .lostWriteRacingDelete
-      | _ =>
-        if !(pre.any fun x => initializes x.1 && x.2 != .refused) &&
-            (linB Fail.sizeOnly (fun _ => racesInit calls) n searchBudget st calls).2 == some true then .lostWriteRacingInit
-        else
-          -- a read that raced a write of its key and answered a truncated list
-          if (linB Fail.sizeOnly (truncatedRead calls) n searchBudget st calls).2 == some true then
-            .readTruncatedRacingWrite
-          else .nonLinearizable
+      -- classification: would the history be linearizable under one of the known defects?
+      let rDel := (linB Fail.sizeOnly (fun st c => racesDelete calls c || orphanRead calls st c) n searchBudget st calls).2
+      let rInit := if pre.any fun x => initializes x.1 && x.2 != .refused then some false
+        else (linB Fail.sizeOnly (fun _ => racesInit calls) n searchBudget st calls).2
+      let rTrunc := (linB Fail.sizeOnly (truncatedRead calls) n searchBudget st calls).2
+      if rDel == some true then .lostWriteRacingDelete
+      else if rInit == some true then .lostWriteRacingInit
+      else if rTrunc == some true then .readTruncatedRacingWrite
+      else if rDel.isNone || rInit.isNone || rTrunc.isNone then .undecided
+      else .nonLinearizable
 
 end Influx.Spec.C09
